@@ -49,7 +49,7 @@ import (
 
 func TestMain(m *testing.M) { ev.Main(m) }
 
-var rec = ev.For("C32", "rapid state machine (t.Repeat) over CreateSubscription / DeleteSubscriptions / CreateMonitoredItems / DeleteMonitoredItems / SetMonitoringMode from 2-3 sessions of one in-process server, plus simultaneous CreateSubscription / CreateMonitoredItems requests from all sessions, targets drawn from {own, foreign, stale, never issued}; benign subscription parameters; non-trivial = the history created a subscription and a monitored item, contained a foreign or unknown operation that was answered, and the final owner sweep verified at least one object; distinct by hash of the executed operation list")
+var rec = ev.For("C32", "rapid state machine (t.Repeat) over CreateSubscription / DeleteSubscriptions / CreateMonitoredItems / DeleteMonitoredItems / SetMonitoringMode from 2-3 sessions of one in-process server, plus simultaneous CreateSubscription / CreateMonitoredItems requests from all sessions, and ModifySubscription / SetPublishingMode / ModifyMonitoredItems / SetTriggering aimed at foreign ids (answer must not be Good), targets drawn from {own, foreign, stale, never issued}; benign subscription parameters; non-trivial = the history created a subscription and a monitored item, contained a foreign or unknown operation that was answered, and the final owner sweep verified at least one object; distinct by hash of the executed operation list")
 
 const testName = "TestIDs"
 
@@ -72,6 +72,7 @@ type opT struct {
 	Mode   uint32 `json:"mode,omitempty"`
 	Settle bool   `json:"settle,omitempty"`
 	K      int    `json:"k,omitempty"` // parallelCreate: sessions 0..K-1 take part
+	Svc    string `json:"svc,omitempty"` // otherSvc: modifySub setPublishingMode modifyItems setTriggering
 }
 
 type caseT struct {
@@ -440,6 +441,109 @@ func (r *runT) exec(op opT) (string, error) {
 			return "", firstErr
 		}
 		r.class("parallelCreate:items")
+		return "", nil
+
+	case "otherSvc":
+		// the remaining services that change a subscription or its monitoring,
+		// aimed at a subscription (and items) of another session: whatever the
+		// server supports of them, the answer for a foreign id must not be Good
+		subID, ok := m.subID(op.Sub)
+		if !ok {
+			return "", nil
+		}
+		scl := m.subClass(subID, op.Sess)
+		var ids []uint32
+		var icl []string
+		for _, t := range op.Items {
+			if id, ok := m.itemID(t); ok {
+				ids = append(ids, id)
+				if it := m.liveItem(id); it != nil && it.owner != op.Sess {
+					icl = append(icl, "foreign")
+				} else {
+					icl = append(icl, "other")
+				}
+			}
+		}
+		var req ua.Request
+		switch op.Svc {
+		case "modifySub":
+			req = &ua.ModifySubscriptionRequest{SubscriptionID: subID, RequestedPublishingInterval: 60000, RequestedLifetimeCount: 3, RequestedMaxKeepAliveCount: 1}
+		case "setPublishingMode":
+			req = &ua.SetPublishingModeRequest{PublishingEnabled: false, SubscriptionIDs: []uint32{subID}}
+		case "modifyItems":
+			if len(ids) == 0 {
+				return "", nil
+			}
+			mr := &ua.ModifyMonitoredItemsRequest{SubscriptionID: subID, TimestampsToReturn: ua.TimestampsToReturnNeither}
+			for _, id := range ids {
+				mr.ItemsToModify = append(mr.ItemsToModify, &ua.MonitoredItemModifyRequest{MonitoredItemID: id,
+					RequestedParameters: &ua.MonitoringParameters{ClientHandle: 0xdead, SamplingInterval: 3600000, Filter: ua.NewExtensionObject(nil), QueueSize: 1, DiscardOldest: true}})
+			}
+			req = mr
+		case "setTriggering":
+			if len(ids) == 0 {
+				return "", nil
+			}
+			req = &ua.SetTriggeringRequest{SubscriptionID: subID, TriggeringItemID: ids[0], LinksToAdd: ids, LinksToRemove: []uint32{}}
+		default:
+			return "", nil
+		}
+		r.class("otherSvc:%s:%s", op.Svc, scl)
+		resp, st, err := r.e.send(op.Sess, req)
+		if err != nil {
+			return "", err
+		}
+		if resp == nil {
+			r.class("otherSvc:%s:fault:%v", op.Svc, st)
+			if scl == "foreign" {
+				r.answered++
+			}
+			return "", nil
+		}
+		owner := func() int {
+			if x := m.liveSub(subID); x != nil {
+				return x.owner
+			}
+			return -1
+		}
+		var results []ua.StatusCode
+		switch v := resp.(type) {
+		case *ua.ModifySubscriptionResponse:
+			if scl == "foreign" && good(v.ResponseHeader.ServiceResult) {
+				return fmt.Sprintf("ModifySubscription by session %d was answered Good for subscription %d owned by session %d", op.Sess, subID, owner()), nil
+			}
+		case *ua.SetPublishingModeResponse:
+			if scl == "foreign" && good(resultAt(v.Results, 0)) {
+				return fmt.Sprintf("SetPublishingMode(false) by session %d reported Good for subscription %d owned by session %d", op.Sess, subID, owner()), nil
+			}
+		case *ua.ModifyMonitoredItemsResponse:
+			for _, x := range v.Results {
+				if x != nil {
+					results = append(results, x.StatusCode)
+				} else {
+					results = append(results, ua.StatusBad)
+				}
+			}
+		case *ua.SetTriggeringResponse:
+			results = v.AddResults
+		default:
+			return "", infraError{fmt.Errorf("%T answered with %T", req, resp)}
+		}
+		for i, res := range results {
+			if i >= len(ids) || !good(res) {
+				continue
+			}
+			if scl == "foreign" {
+				return fmt.Sprintf("%T by session %d on subscription %d owned by session %d reported Good for item %d", req, op.Sess, subID, owner(), ids[i]), nil
+			}
+			if icl[i] == "foreign" {
+				it := m.liveItem(ids[i])
+				return fmt.Sprintf("%T by session %d reported Good for monitored item %d, which belongs to subscription %d of session %d", req, op.Sess, ids[i], it.sub, it.owner), nil
+			}
+		}
+		if scl == "foreign" {
+			r.answered++
+		}
 		return "", nil
 
 	case "deleteSubs":
@@ -869,6 +973,25 @@ func TestIDs(t *testing.T) {
 						r.classes["_createdItem"]++
 					}
 				}
+			},
+			"otherSvc": func(t *rapid.T) {
+				sess := rapid.IntRange(0, c.Sessions-1).Draw(t, "sess")
+				svc := rapid.SampledFrom([]string{"modifySub", "setPublishingMode", "modifyItems", "setTriggering"}).Draw(t, "svc")
+				shape := rapid.SampledFrom([]string{"foreign/foreign", "foreign/foreign", "own/foreign", "never/foreign", "own/own"}).Draw(t, "shape")
+				subKind, itemKind, _ := strings.Cut(shape, "/")
+				tg, _, ok := drawSubTarget(t, m, sess, []string{subKind})
+				if !ok {
+					t.Skip("no target")
+				}
+				subID, _ := m.subID(tg)
+				op := opT{Op: "otherSvc", Svc: svc, Sess: sess, Sub: tg, Settle: rapid.Bool().Draw(t, "settle")}
+				if svc == "modifyItems" || svc == "setTriggering" {
+					op.Items = drawItemTargets(t, m, sess, subID, itemKind)
+					if len(op.Items) == 0 {
+						t.Skip("no target")
+					}
+				}
+				step(op)
 			},
 			"deleteSubs": func(t *rapid.T) {
 				sess := rapid.IntRange(0, c.Sessions-1).Draw(t, "sess")
